@@ -518,12 +518,30 @@ class Body:
 
 import itertools
 _FACTS_UID = itertools.count(1)
+# memo tables keyed by (facts.uid, ...) or facts.uid register here; a long run (mutant campaign, seed matrix) loads
+# hundreds of fact bases in one process, and the tables (whose values keep the Facts alive) would otherwise grow until
+# the process is killed.  Kept: the first fact base of the process (the unchanged tree) and the two newest.
+MEMO_TABLES = []
+
+
+def register_memo(table):
+    MEMO_TABLES.append(table)
+    return table
+
+
+def _purge_memos(current_uid):
+    keep = {1, current_uid, current_uid - 1}
+    for t in MEMO_TABLES:
+        dead = [k for k in t if (k[0] if isinstance(k, tuple) else k) not in keep]
+        for k in dead:
+            del t[k]
 
 
 class Facts:
     def __init__(self, directory, crates=('quinn_proto', 'quinn', 'quinn_udp'), tag=''):
         self.dir = directory
         self.uid = next(_FACTS_UID)      # cache key for per-fact-base memo tables (id() can be reused after a Facts is freed)
+        _purge_memos(self.uid)
         self.bodies = {}
         self.by_short = {}
         self.adts = {}
